@@ -4,7 +4,7 @@
    every record header length equals its payload size and every payload is one
    complete BER element (generic TLV walk). *)
 From Coq Require Import List ZArith Bool.
-From Verif Require Import Common.Outcome Common.Bytes CdrFile.Model CdrFile.Spec Ber.Model.
+From Verif Require Import Common.Outcome Common.Bytes CdrFile.Model CdrFile.Spec Ber.Model Ber.SchemaGen Charging.RecordBer.
 Import ListNotations.
 Open Scope Z_scope.
 
@@ -27,7 +27,11 @@ Fixpoint tlv_complete (depth : nat) (bs : list Z) : bool :=
   end.
 
 (* 0 ok; 1 not readable; 2 header/file length fields wrong; 3 count wrong;
-   4 a record length field differs from its payload; 5 a payload is not a complete BER element *)
+   4 a record length field differs from its payload; 5 a payload is not a complete BER element;
+   6 a payload is one BER element but does not decode as a CHFRecord of the schema regenerated from /repo *)
+Definition is_chf_record (bs : list Z) : bool :=
+  match dec ty_CHFRecord p_chf bs with Ok _ => true | _ => false end.
+
 Definition file_code (bs : list Z) : Z :=
   match spec_read bs with
   | None => 1
@@ -36,6 +40,7 @@ Definition file_code (bs : list Z) : Z :=
     else if negb (ncdrs (f_hdr f) =? zlen (f_cdrs f)) then 3
     else if negb (forallb (fun c => cdr_len (c_hdr c) =? zlen (c_payload c)) (f_cdrs f)) then 4
     else if negb (forallb (fun c => tlv_complete 24 (c_payload c)) (f_cdrs f)) then 5
+    else if negb (forallb (fun c => is_chf_record (c_payload c)) (f_cdrs f)) then 6
     else 0
   end.
 
